@@ -23,6 +23,9 @@ class SymEnv:
     def sym(self, name, lo=None, hi=None):
         return self.ctx.sym(name, lo, hi)
 
+    def string(self, name):
+        return self.ctx.str_sym(name)
+
     def z(self, name):
         v = self.ctx.symbols[name]
         for sym, val in self.ctx.bindings:      # the path fixed this symbol to a constant (K-way choice, == branch)
@@ -47,6 +50,9 @@ class ConcEnv:
             v = lo if lo is not None else 0
             self.model[name] = v
         return v
+
+    def string(self, name):
+        return self.model.setdefault(name, '')
 
     def z(self, name):
         return z3.BitVecVal(self.model[name], E.W)
